@@ -105,18 +105,26 @@ def eof_class(msgs, eof):
 
 
 class FramingRun:
-    def __init__(self):
+    def __init__(self, role='receiver'):
         self.received = []
         self.exc = None
         self.outcome = None
         self.sim = None
         self.netw = None
         self.overrun = False
+        self.role = role
+        self.cid = None
 
 
-def run_framing(msgs, eof, sched, cuts=None):
+def run_framing(msgs, eof, sched, cuts=None, other=None):
     """cuts: None -> the sender uses the real send_message per message (network config chunks);
-    otherwise a sorted list of absolute byte positions at which the sender splits its writes."""
+    otherwise a sorted list of absolute byte positions at which the sender splits its writes.
+
+    other: a second connection in the same process, {'msgs', 'eof', 'mode'}: mode 'before' -- it is
+    opened, fed and closed (typically in the middle of a message) before the main one starts;
+    mode 'concurrent' -- both connections are live and their two receivers and two senders are
+    interleaved by the scheduler.  Each connection has its own MessageInterface, as each
+    PlayerThread and each Client has.  Returns the main FramingRun; the other one is `.other`."""
     mods, be = be_objs()
     MI = mods['socket_interface'].MessageInterface
     srng = random.Random(f"sched/{sched.get('seed', 0)}")
@@ -129,71 +137,92 @@ def run_framing(msgs, eof, sched, cuts=None):
     netw = net.Network(net.NetConfig(nrng, ncfg.get('chunk', 'whole'), ncfg.get('latency', 'const')))
     core.set_current(sim)
     net.set_network(netw)
-    fr = FramingRun()
+    from sim import prims
+
+    def lane(fr, msgs, eof, cuts, addr, suffix, start_gate, done_gate):
+        stream = stream_of(msgs)
+        eof = min(eof, len(stream))
+        nexp = len(expected_received(msgs, eof))
+
+        def receiver():
+            srv = SimSocket()
+            srv.bind(addr)
+            srv.listen(1)
+            conn, _ = srv.accept()
+            fr.cid = conn._conn.cid
+            mi = MI(connection_socket=conn)
+            while True:
+                try:
+                    m = mi.receive_message()
+                except Exception as e:
+                    fr.exc = e
+                    break
+                fr.received.append(m)
+                if len(fr.received) > nexp + 3:
+                    fr.overrun = True
+                    break
+            conn.close()
+            srv.close()
+            if done_gate is not None:
+                done_gate.set()
+
+        def sender():
+            if start_gate is not None:
+                start_gate.wait()
+            sk = SimSocket()
+            sk.connect(addr)
+            mi = MI(connection_socket=sk)
+            if cuts is None:
+                pos = 0
+                for m in msgs:
+                    b = (m[0] + '\r\n').encode('utf-8')
+                    if pos + len(b) <= eof:
+                        mi.send_message(m[0])
+                        pos += len(b)
+                    else:
+                        if eof > pos:
+                            sk.sendall(b[:eof - pos])
+                        break
+            else:
+                p = 0
+                for c in list(cuts) + [eof]:
+                    c = min(c, eof)
+                    if c > p:
+                        sk.sendall(stream[p:c])
+                        p = c
+            sk.close()
+
+        sim.spawn(receiver, 'receiver' + suffix)
+        sim.spawn(sender, 'sender' + suffix)
+
+    fr = FramingRun('receiver')
     fr.sim = sim
     fr.netw = netw
-    stream = stream_of(msgs)
-    total = len(stream)
-    eof = min(eof, total)
-    nexp = len(expected_received(msgs, eof))
-
-    def receiver():
-        srv = SimSocket()
-        srv.bind(ADDR)
-        srv.listen(1)
-        conn, _ = srv.accept()
-        mi = MI(connection_socket=conn)
-        while True:
-            try:
-                m = mi.receive_message()
-            except Exception as e:
-                fr.exc = e
-                break
-            fr.received.append(m)
-            if len(fr.received) > nexp + 3:
-                fr.overrun = True
-                break
-        conn.close()
-        srv.close()
-
-    def sender():
-        sk = SimSocket()
-        sk.connect(ADDR)
-        mi = MI(connection_socket=sk)
-        if cuts is None:
-            pos = 0
-            for m in msgs:
-                b = (m[0] + '\r\n').encode('utf-8')
-                if pos + len(b) <= eof:
-                    mi.send_message(m[0])
-                    pos += len(b)
-                else:
-                    if eof > pos:
-                        sk.sendall(b[:eof - pos])
-                    break
-        else:
-            p = 0
-            for c in list(cuts) + [eof]:
-                c = min(c, eof)
-                if c > p:
-                    sk.sendall(stream[p:c])
-                    p = c
-        sk.close()
-
-    sim.spawn(receiver, 'receiver')
-    sim.spawn(sender, 'sender')
+    fr.other = None
+    gate = None
+    if other is not None:
+        fo = FramingRun('receiver:other')
+        fo.sim = sim
+        fo.netw = netw
+        fr.other = fo
+        if other.get('mode') == 'before':
+            gate = prims.SimEvent()
+        lane(fo, other['msgs'], other['eof'], None, (ADDR[0], ADDR[1] + 1), ':other', None, gate)
+    lane(fr, msgs, eof, cuts, ADDR, '', gate, None)
     try:
         fr.outcome = sim.run()
     finally:
         core.set_current(None)
         net.set_network(None)
+    if fr.other is not None:
+        fr.other.outcome = fr.outcome
     return fr
 
 
 def check_framing(fr, msgs, eof, findings, plan, cov):
     sim = fr.sim
     exp = expected_received(msgs, eof)
-    rt = next(t for t in sim.threads if t.role == 'receiver')
+    rt = next(t for t in sim.threads if t.role == fr.role)
 
     def add(oracle, msg, key=None):
         findings.append({'prop': 'C19', 'oracle': oracle, 'key': key or oracle, 'msg': msg,
@@ -223,7 +252,7 @@ def check_framing(fr, msgs, eof, findings, plan, cov):
                                f'(EOF {cls})')
         return
     # the bytes the real send_message put on the wire
-    sent = b''.join(s[4] for s in fr.netw.sends if s[3] == 'c2s')
+    sent = b''.join(s[4] for s in fr.netw.sends if s[3] == 'c2s' and s[2] == fr.cid)
     if sent != stream_of(msgs)[:min(eof, len(stream_of(msgs)))]:
         add('send-bytes', f'send_message put {sent[:80]!r} on the wire')
     # meaning: apply the peer's real parser to each received line
@@ -299,12 +328,62 @@ def _account(st, fr, sched, eof_cls, label):
         st.setdefault('run_digests', []).append(sim.digest())
 
 
+def _plan_msgs(msgs):
+    return [list(m[:2]) + [_j(m[2])] for m in msgs]
+
+
+def exec_plan(plan, label):
+    """One framing run (isolated child): run, check, account.  Plain data in and out."""
+    msgs = [(m[0], m[1], _t(m[2])) for m in plan['msgs']]
+    other = plan.get('other')
+    o = None
+    if other is not None:
+        o = {'msgs': [(m[0], m[1], _t(m[2])) for m in other['msgs']], 'eof': other['eof'],
+             'mode': other['mode']}
+    fr = run_framing(msgs, plan['eof'], plan['sched'], cuts=plan.get('cuts'), other=o)
+    findings = []
+    cov = {'calls': set(), 'cards': set(), 'headers': set(), 'voids': set(), 'hand_sizes': set()}
+    check_framing(fr, msgs, plan['eof'], findings, plan, cov)
+    if fr.other is not None:
+        n0 = len(findings)
+        check_framing(fr.other, o['msgs'], o['eof'], findings, plan, cov)
+        for f in findings[n0:]:
+            f['msg'] = '[the other connection] ' + f['msg']
+    st = new_stats()
+    _account(st, fr, plan['sched'], eof_class(msgs, plan['eof']), label)
+    if o is not None:
+        k = 'second_connection.' + o['mode']
+        st['faults'][k] = st['faults'].get(k, 0) + 1
+    for k in cov:
+        st['cov'][k] = sorted(map(list, cov[k])) if k in ('calls', 'cards', 'headers') else \
+            sorted(cov[k])
+    total = len(stream_of(msgs))
+    sample = {'messages': [m[0] for m in msgs][:3], 'eof_at_byte': plan['eof'], 'of': total,
+              'eof_position': eof_class(msgs, plan['eof']), 'net': plan['sched'].get('net'),
+              'received': len(fr.received),
+              'ended_with': type(fr.exc).__name__ if fr.exc else None,
+              'second_connection': None if o is None else
+              {'mode': o['mode'], 'eof_at_byte': o['eof'],
+               'eof_position': eof_class(o['msgs'], o['eof'])}}
+    return {'st': st, 'findings': findings, 'sample': sample,
+            'summary': {'outcome': fr.outcome, 'digest': fr.sim.digest(),
+                        'decisions': fr.sim.decisions}}
+
+
 def run_task(task):
+    from harness import isolate
+    from scenarios import s1
     rng = random.Random(f's4/{task["seed"]}')
     st = new_stats()
     findings = []
     samples = []
-    cov = {'calls': set(), 'cards': set(), 'headers': set(), 'voids': set(), 'hand_sizes': set()}
+
+    def one(plan, label):
+        r = isolate.call(exec_plan, plan, label)
+        s1.merge_stats(st, r['st'])
+        findings.extend(r['findings'])
+        return r
+
     if task['type'] == 's4':
         for j in range(task.get('n', 12)):
             msgs = gen_messages(rng)
@@ -316,16 +395,21 @@ def run_task(task):
                      'depth': rng.choice((1, 2, 3)),
                      'net': {'chunk': rng.choice(('whole', 'few', 'crlf', 'bytes')),
                              'latency': rng.choice(('const', 'uniform', 'heavy'))}}
-            plan = {'family': 'S4', 'msgs': [list(m[:2]) + [_j(m[2])] for m in msgs], 'eof': eof,
-                    'sched': sched, 'cuts': None}
-            fr = run_framing(msgs, eof, sched)
-            check_framing(fr, msgs, eof, findings, plan, cov)
-            _account(st, fr, sched, eof_class(msgs, eof), 's4:' + sched['strategy'])
+            plan = {'family': 'S4', 'msgs': _plan_msgs(msgs), 'eof': eof, 'sched': sched,
+                    'cuts': None}
+            r = rng.random()
+            if r < 0.35:
+                # a second connection in the same process: one that was closed (mostly in the
+                # middle of a message) before this one starts, or one that is live at the same
+                # time -- every connection has its own receiver state
+                om = gen_messages(rng, rng.randint(1, 4))
+                ot = len(stream_of(om))
+                mode = 'before' if r < 0.17 else 'concurrent'
+                oe = rng.randint(0, ot) if (mode == 'before' or rng.random() < 0.5) else ot
+                plan['other'] = {'msgs': _plan_msgs(om), 'eof': oe, 'mode': mode}
+            res = one(plan, 's4:' + sched['strategy'])
             if len(samples) < 2:
-                samples.append({'messages': [m[0] for m in msgs][:3], 'eof_at_byte': eof,
-                                'of': total, 'eof_position': eof_class(msgs, eof),
-                                'net': sched['net'], 'received': len(fr.received),
-                                'ended_with': type(fr.exc).__name__ if fr.exc else None})
+                samples.append(res['sample'])
     else:
         # enumeration: one message list; every EOF offset x {whole, bytes, every single cut}
         msgs = gen_messages(rng, rng.randint(1, 4))
@@ -341,11 +425,9 @@ def run_task(task):
             for c in range(1, eof):
                 variants.append((f'cut@{c}', [c], sched0))
             for name, cuts, sched in variants:
-                plan = {'family': 'S4', 'msgs': [list(m[:2]) + [_j(m[2])] for m in msgs],
-                        'eof': eof, 'sched': sched, 'cuts': cuts}
-                fr = run_framing(msgs, eof, sched, cuts=cuts)
-                check_framing(fr, msgs, eof, findings, plan, cov)
-                _account(st, fr, sched, eof_class(msgs, eof), 's4e:' + name.split('@')[0])
+                plan = {'family': 'S4', 'msgs': _plan_msgs(msgs), 'eof': eof, 'sched': sched,
+                        'cuts': cuts}
+                one(plan, 's4e:' + name.split('@')[0])
                 nruns += 1
                 if len(findings) > 40:
                     break
@@ -353,9 +435,6 @@ def run_task(task):
                             'eof_offsets': total + 1, 'runs': nruns,
                             'what': 'every EOF offset x {unsplit, byte-wise, every single cut}'}
         samples.append({'messages': [m[0] for m in msgs], 'stream_bytes': total, 'runs': nruns})
-    for k in cov:
-        st['cov'][k] = sorted(map(list, cov[k])) if k in ('calls', 'cards', 'headers') else \
-            sorted(cov[k])
     # keep one finding per key
     seen = set()
     keep = []
@@ -379,10 +458,5 @@ def _t(v):
 
 
 def run_plan(plan, prop):
-    msgs = [(m[0], m[1], _t(m[2])) for m in plan['msgs']]
-    fr = run_framing(msgs, plan['eof'], plan['sched'], cuts=plan.get('cuts'))
-    findings = []
-    cov = {'calls': set(), 'cards': set(), 'headers': set(), 'voids': set(), 'hand_sizes': set()}
-    check_framing(fr, msgs, plan['eof'], findings, plan, cov)
-    return findings, {'outcome': fr.outcome, 'digest': fr.sim.digest(),
-                      'decisions': fr.sim.decisions}
+    r = exec_plan(plan, 'replay')
+    return r['findings'], r['summary']
